@@ -94,6 +94,18 @@ theorem C01_filter_fix_conservative (n : Node) (s : Bytes) (h : Filter.decompile
     Filter.decompile true n = some s :=
   Filter.decompile_mono n s h
 
+/-! Each side condition of `Filter.WF` excludes a real collision of the string form (kernel-checked): -/
+
+/-- a matching rule spelled `dn` reads like the dnAttributes flag: `(cn:dn:=v)` -/
+theorem filter_wf_needed_rule_dn :
+    Filter.render (.ext (some [100, 110]) (some [99, 110]) [118] false) = Filter.render (.ext none (some [99, 110]) [118] true) := by decide
+/-- a substring filter without parts reads like an equality match with the empty value: `(cn=)` -/
+theorem filter_wf_needed_subs_nonempty : Filter.render (.substr [99, 110] []) = Filter.render (.eq [99, 110] []) := by decide
+/-- an empty substring part reads like a missing one: `(cn=*)` is also the presence filter -/
+theorem filter_wf_needed_part_nonempty : Filter.render (.substr [99, 110] [.initial []]) = Filter.render (.present [99, 110]) := by decide
+/-- an attribute description containing an operator byte reads like a shorter one: `(a=b=c)` -/
+theorem filter_wf_needed_plain_attr : Filter.render (.eq [97, 61, 98] [99]) = Filter.render (.eq [97] [98, 61, 99]) := by decide
+
 /-- "(cn:dn:=foo)" -/
 def exDnFilter : Filter.Filter := .ext none (some [99, 110]) [102, 111, 111] true
 
